@@ -90,7 +90,7 @@ Proof.
       destruct r; cbn; try discriminate.
       * destruct (aexec r (negb (is_ra a)) rg m) as [o rg'] eqn:E. cbn. intros ->.
         apply aexec_some in E. tauto.
-      * intros H; inversion H; subst. tauto.
+      * destruct (ra0 =? 0); [discriminate|]. intros H; inversion H; subst. tauto.
       * subst rg0. destruct (aexec afallback_rule (negb (is_ra a)) rg m) as [o rg'] eqn:E.
         cbn. intros ->. apply aexec_some in E. tauto.
       * subst rg0. destruct (aexec afallback_rule (negb (is_ra a)) rg m) as [o rg'] eqn:E.
